@@ -129,7 +129,7 @@ def make_invocation(rng, world, with_faults):
     if usage is None and not binary and inp in files and len(util.dec_content(files[inp])) < 60000 and rng.random() < 0.05:
         # the listing arrives on a pipe: `... | jasm -p rule -s /dev/stdin` (readable once, not seekable)
         op["stdin_pipe"] = inp
-        op["argv"] = ["/dev/stdin" if a == inp else (a.replace(inp, "/dev/stdin") if a.endswith(inp) and a != inp else a) for a in op["argv"]]
+        op["argv"] = ["/dev/stdin" if a == inp else (a[:-len(inp)] + "/dev/stdin" if a.endswith(inp) and a != inp else a) for a in op["argv"]]
         op["_lib"]["input"] = "/dev/stdin"
     if usage is None and rng.random() < 0.12:
         # an earlier invocation ran in the same working directory and left whatever it leaves (logs/, ...)
